@@ -254,10 +254,11 @@ func park(j *Job, phase int32) {
 	var b [1]byte
 	ok := RawRead(j.rfd, b[:])
 	if !ok || b[0] == cmdExit {
-		wfd := j.wfd
+		// emit before closing: the fd number must not be reused by another
+		// job's pipe before the controller has seen this event
+		Emit(EvExited, uint8(j.kind), 0, int32(j.wfd), 0)
 		RawClose(j.rfd)
 		RawClose(j.wfd)
-		Emit(EvExited, uint8(j.kind), 0, int32(wfd), 0)
 		runtime.Goexit()
 	}
 }
@@ -290,11 +291,10 @@ func Posted(j *Job) {
 	if j == nil || !j.active {
 		return
 	}
-	wfd := j.wfd
+	j.active = false
+	Emit(EvPosted, uint8(j.kind), 0, int32(j.wfd), 0)
 	RawClose(j.rfd)
 	RawClose(j.wfd)
-	j.active = false
-	Emit(EvPosted, uint8(j.kind), 0, int32(wfd), 0)
 }
 
 // Release lets the job parked on release fd wfd continue (exit=false) or
@@ -372,6 +372,25 @@ func Fire() bool {
 	}
 	return true
 }
+
+// Saved lets oracles run repository code (which consumes clock ticks and
+// map-order draws) without perturbing the schedule.
+type Saved struct {
+	offset int64
+	mapCtr uint64
+	ioCtr  uint64
+	armed  bool
+}
+
+//go:norace
+func Save() Saved {
+	s := Saved{offset, mapCtr, ioCtr, ioArmed}
+	ioArmed = false
+	return s
+}
+
+//go:norace
+func Restore(s Saved) { offset, mapCtr, ioCtr, ioArmed = s.offset, s.mapCtr, s.ioCtr, s.armed }
 
 // ---- map order --------------------------------------------------------------
 
